@@ -299,3 +299,80 @@ fn error_kind(vals: &[u8]) -> Result<Outcome, String> {
     };
     Ok(Outcome { reproduced: bad.is_some(), role: if is_std { "standard-error".into() } else { "other-error".into() }, scenario, detail: bad.unwrap_or_default() })
 }
+
+// C05 client half (c05_next / c05_more / c05_call): the scenario space is small, so the native side walks it instead of
+// decoding the solver's assignment: a `more` call against k continues replies and a final reply (result, error, result
+// with continues spelled false), then a plain call on the same connection.
+pub fn client_iter(_vals: &[u8]) -> Outcome {
+    for k in 0..4usize {
+        for fin in 0..3u8 {
+            let mut stream = Vec::new();
+            for i in 0..k {
+                stream.extend_from_slice(format!("{{\"continues\":true,\"parameters\":{{\"i\":{}}}}}\0", i).as_bytes());
+            }
+            stream.extend_from_slice(match fin {
+                0 => &b"{\"parameters\":{\"i\":99}}\0"[..],
+                1 => &b"{\"error\":\"a.b.Failed\",\"parameters\":{}}\0"[..],
+                _ => &b"{\"continues\":false,\"parameters\":{\"i\":99}}\0"[..],
+            });
+            stream.extend_from_slice(b"{\"parameters\":{\"next\":true}}\0");
+            let scenario = format!("more() against {} continues replies and a final {}, then call()", k,
+                                   ["result", "error", "result with continues:false"][fin as usize]);
+            let bad = |detail: String| Outcome { reproduced: true, role: "more-iteration".into(), scenario: scenario.clone(), detail };
+            let (conn, w) = connection(stream, false);
+            let mut call: Call = MethodCall::new(conn.clone(), "a.b.M", json!({}));
+            let run = std::panic::catch_unwind(std::panic::AssertUnwindSafe(|| -> Result<(), String> {
+                let it = call.more().map_err(|e| format!("more() failed on a free connection: {}", e))?;
+                let sent = messages(&w);
+                if sent.len() != 1 || sent[0].get("more") != Some(&json!(true)) || sent[0].get("oneway").is_some() {
+                    return Err(format!("more() wrote {:?}", sent));
+                }
+                let mut items = Vec::new();
+                for _ in 0..(k + 3) {
+                    match it.next() {
+                        None => break,
+                        Some(x) => items.push(x),
+                    }
+                }
+                if items.len() != k + 1 {
+                    return Err(format!("{} items yielded, expected {}", items.len(), k + 1));
+                }
+                for (i, x) in items.iter().enumerate() {
+                    let want_err = i == k && fin == 1;
+                    match x {
+                        Ok(v) if !want_err => {
+                            let want = if i < k { json!({"i": i}) } else { json!({"i": 99}) };
+                            if *v != want {
+                                return Err(format!("item {} is {} instead of {}", i, v, want));
+                            }
+                        }
+                        Err(_) if want_err => {}
+                        other => return Err(format!("item {} is {:?}", i, other.as_ref().map_err(|e| kind_name(e)))),
+                    }
+                }
+                if it.next().is_some() {
+                    return Err("an item after the end of the iteration".into());
+                }
+                Ok(())
+            }));
+            match run {
+                Err(_) => return bad("the iteration panicked".into()),
+                Ok(Err(d)) => return bad(d),
+                Ok(Ok(())) => {}
+            }
+            if !free(&conn) {
+                return bad("the connection is still taken after the final reply".into());
+            }
+            let mut c2: Call = MethodCall::new(conn.clone(), "a.b.N", json!({}));
+            match c2.call() {
+                Ok(v) if v == json!({"next": true}) => {}
+                other => return bad(format!("the following call() gave {:?}", other.map_err(|e| kind_name(&e)))),
+            }
+            if messages(&w).len() != 2 {
+                return bad(format!("{} requests written for two calls", messages(&w).len()));
+            }
+        }
+    }
+    Outcome { reproduced: false, role: String::new(), scenario: "more() iterations of 0..3 continues replies x three final replies, each followed by call()".into(),
+              detail: "every iteration yielded each reply once, ended, and left the connection free".into() }
+}
